@@ -70,6 +70,23 @@ func isFormatErr(err error) bool {
 	return err != nil && strings.Contains(err.Error(), "invalid config format")
 }
 
+// guarded calls: a panic inside the library is an observation, not a harness crash
+func safeGet(fs *credentials.FileStore, a string) (c auth.Credential, err error, pan any) {
+	defer func() { pan = recover() }()
+	c, err = fs.Get(context.Background(), a)
+	return
+}
+func safePut(fs *credentials.FileStore, a string, c auth.Credential) (err error, pan any) {
+	defer func() { pan = recover() }()
+	err = fs.Put(context.Background(), a, c)
+	return
+}
+func safeDelete(fs *credentials.FileStore, a string) (err error, pan any) {
+	defer func() { pan = recover() }()
+	err = fs.Delete(context.Background(), a)
+	return
+}
+
 func md5hex(s string) string {
 	h := md5.Sum([]byte(s))
 	return hex.EncodeToString(h[:])
@@ -168,6 +185,13 @@ func runHistory(hc histCase) {
 		}
 	}
 	initTok, judged := docTokens(initDoc)
+	if initDoc != nil && initDoc.k == jNull {
+		// the JSON document "null": an empty configuration
+		initTok, judged = "DOC 0", true
+		run.Count("init:null-document")
+	} else if initDoc != nil && initDoc.k != jObj {
+		run.Count("init:not-an-object")
+	}
 	fail := func(sig, msg string) { run.OracleFail(id, sig, msg, hc) }
 
 	fs, err := credentials.NewFileStore(path)
@@ -193,7 +217,7 @@ func runHistory(hc histCase) {
 	lastPut := map[string]*opx{}      // address -> last successful Put since the last Delete
 	legacyKeys := map[string]bool{}   // every key that ever was in auths
 	saved := false
-	if initDoc != nil {
+	if initDoc != nil && initDoc.k == jObj {
 		for _, kv := range initDoc.obj {
 			switch {
 			case kv.key == "auths":
@@ -220,8 +244,12 @@ func runHistory(hc histCase) {
 		var res string
 		switch o.Op {
 		case "G":
-			c, err := fs.Get(ctx, o.Addr)
-			if err != nil {
+			c, err, pan := safeGet(fs, o.Addr)
+			if pan != nil {
+				fail("panic", fmt.Sprintf("Get(%q) panicked: %v", o.Addr, pan))
+				run.Evaluations++
+				return
+			} else if err != nil {
 				res = resultStr(nil, err)
 			} else {
 				res = credStr(c)
@@ -246,8 +274,13 @@ func runHistory(hc histCase) {
 				}
 			}
 		case "P":
-			err := fs.Put(ctx, o.Addr, o.cred())
+			err, pan := safePut(fs, o.Addr, o.cred())
 			res = resultStr(nil, err)
+			if pan != nil {
+				fail("panic", fmt.Sprintf("Put(%q) panicked: %v", o.Addr, pan))
+				run.Evaluations++
+				return
+			}
 			modelOps = append(modelOps, fmt.Sprintf("P %s %s %s %s %s", common.Hex(o.Addr), common.Hex(o.U), common.Hex(o.P), common.Hex(o.R), common.Hex(o.A)))
 			if strings.Contains(o.U, ":") {
 				if !errors.Is(err, credentials.ErrBadCredentialFormat) {
@@ -268,8 +301,13 @@ func runHistory(hc histCase) {
 			}
 		case "D":
 			_, had := wantEntry[o.Addr]
-			err := fs.Delete(ctx, o.Addr)
+			err, pan := safeDelete(fs, o.Addr)
 			res = resultStr(nil, err)
+			if pan != nil {
+				fail("panic", fmt.Sprintf("Delete(%q) panicked: %v", o.Addr, pan))
+				run.Evaluations++
+				return
+			}
 			modelOps = append(modelOps, "D "+common.Hex(o.Addr))
 			if err != nil {
 				fail("delete-error", fmt.Sprintf("Delete(%q) failed: %v", o.Addr, err))
@@ -300,6 +338,9 @@ func runHistory(hc histCase) {
 				fail("file-missing", "config file missing after a save")
 			}
 			continue
+		}
+		if doc.k == jNull && !saved {
+			continue // the untouched document "null"
 		}
 		if doc.k != jObj {
 			fail("file-unparseable", "config file is not a JSON object")
